@@ -77,9 +77,30 @@ Judge(j) ==
                   /\ [q \in 1..Len(e.toks) |-> <<e.toks[q].n, e.toks[q].k>>] # [q \in 1..Len(e.outs) |-> <<e.outs[q].n, e.outs[q].k>>])
                   => Report(j, "C16", <<"tokens are not tagged like the output events">>)
 
+\* serialisation with the normaliser NormF: the entry points agree with each other (C16), and the output is a
+\* serialisation of the normalised tree (beyond the listed properties: reported as prop "X-NORM", never as a violation)
+NReRoot(e) == IF e.st.n[e.root].k = "doc" THEN e.nreroot ELSE DocumentElement(e.nretree.n, e.nreroot)
+NSerDomain(e, NN) ==
+    /\ NN[e.root].p = 0
+    /\ Representable(NN, e.root) \/ (e.frag /\ NN[e.root].k = "doc" /\ \A y \in SeqRange(NormKids(NN, e.root)) : Representable(NN, y) \/ NN[y].k \notin {"doc", "elem"})
+    /\ Usable(NN, e.root)
+JudgeNorm(j) ==
+    LET e == Rec[j]  N == e.st.n  NN == NormForest(N) IN
+    e.nres = "na" \/
+    /\ Wants(e, "tokens") =>
+         /\ (e.nwres # e.nres \/ e.nwtext # e.ntext) => Report(j, "C16", <<"Write entry point with a normaliser differs from the string one", e.nwres>>)
+         /\ (e.nres = "ok" /\ e.decl = 0 /\ (e.ntokres # "ok" \/ Flatten(e.ntoks) # e.ntext))
+               => Report(j, "C16", <<"token stream with a normaliser does not spell the string", e.ntokres>>)
+         /\ (NN = N /\ NormJudgeable(N, e.root) /\ (e.nres # e.res \/ e.ntext # e.text)) => Report(j, "C16", <<"a normaliser that changes nothing changed the output">>)
+    /\ (NormJudgeable(N, e.root) /\ SerDomain(e) /\ NSerDomain(e, NN)) =>
+         /\ e.nres # "ok" => Report(j, "X-NORM", <<"does not serialise with a normaliser", e.nres>>)
+         /\ (e.nres = "ok" /\ e.nre # "ok") => Report(j, "X-NORM", <<"normalised output is rejected by the parser", e.nre>>)
+         /\ (e.nres = "ok" /\ e.nre = "ok" /\ (NReRoot(e) = 0 \/ ~SameDocument(NN, e.root, e.nretree.n, NReRoot(e))))
+               => Report(j, "X-NORM", <<"output with a normaliser is not the normalised tree">>)
+
 Init == i = 0
 Next == i < Len(Rec) /\ i' = i + 1
 Spec == Init /\ [][Next]_i
-Judged == i = 0 \/ Judge(i)
+Judged == i = 0 \/ (Judge(i) /\ (StructDefect(Rec[i].st.n) # "none" \/ JudgeNorm(i)))
 Consumed == TLCGet("stats").diameter = Len(Rec) + 1 \/ PrintT(<<"NOTCONSUMED", TLCGet("stats").diameter, Len(Rec)>>)
 =============================================================================
